@@ -80,13 +80,20 @@ def confirm(mutdir, name):
         parts = cls.split(".")
         node = ("/".join(parts[:-1]) + ".py::" + parts[-1] + "::" + test) if parts[-1][0].isupper() else ("/".join(parts) + ".py::" + test)
         ok = False
-        for _ in range(4):
+        burners = []
+        for attempt in range(8):
+            # TestCompatibility::test_callback_v*_mqtt3 lose a teardown race on an idle machine most of the time, on the
+            # unmodified tree too, and win it under load (see bin/baseline): CPU load is added from the third attempt on
+            if attempt == 2:
+                burners = [subprocess.Popen([PY, "-c", "while True: pass"]) for _ in range(12)]
             p = subprocess.run([PY, "-m", "pytest", "-q", "-p", "no:cacheprovider", "--timeout=900", node], cwd=wt, env=env,
                                capture_output=True, text=True, preexec_fn=pre)
             last = p.stdout.strip().split("\n")[-1] if p.stdout.strip() else ""
             if p.returncode == 0 and "failed" not in last and "error" not in last:
                 ok = True
                 break
+        for b in burners:
+            b.kill()
         if not ok:
             still.append(n)
     res["suite"] = {"stable_pass": len(base["stable_pass"]), "first_run_not_passing": len(missing), "not_passing_after_reruns": still}
